@@ -75,7 +75,7 @@ class Ctx:
         self.ob("CHECKER-PRECONDITION", _slug(msg)[:80], False, "", msg)
 
     # ------------------------------------------------------------------ finish
-    def finish(self):
+    def finish(self, write=True):
         # merge per key: over configurations, violation > known > discharged
         rank = {"violation": 2, "known": 1, "discharged": 0}
         merged = {}
@@ -94,7 +94,7 @@ class Ctx:
         viol = [o for o in obs if o["status"] == "violation"]
         known = [o for o in obs if o["status"] == "known"]
         disc = [o for o in obs if o["status"] == "discharged"]
-        rdir = os.path.join(VERIF, "reports", self.prop)
+        rdir = os.path.join(VERIF, "reports", self.prop) if write else os.path.join(os.environ.get("VERIF_TMPDIR") or "/var/tmp", "mdnsverif-reports", self.prop)
         os.makedirs(rdir, exist_ok=True)
         lines = []
         for o in known:
@@ -154,8 +154,9 @@ class Ctx:
             "wall_s": round(time.time() - self.t0, 2),
             "violations": len(viol),
         }
-        edir = os.path.join(VERIF, "evidence")
-        os.makedirs(edir, exist_ok=True)
-        with open(os.path.join(edir, self.prop + ".json"), "w") as fh:
-            json.dump(ev, fh, indent=1)
+        if write:
+            edir = os.path.join(VERIF, "evidence")
+            os.makedirs(edir, exist_ok=True)
+            with open(os.path.join(edir, self.prop + ".json"), "w") as fh:
+                json.dump(ev, fh, indent=1)
         return lines, (1 if viol else 0), ev
